@@ -98,6 +98,7 @@ type Sched struct {
 	segs    int
 	curPos  ssa.Instruction
 	raceSeen map[string]bool
+	sleep    map[int]bool
 }
 
 func newSched(in *Interp) *Sched {
@@ -389,18 +390,87 @@ func (s *Sched) pick(self *Thread) *Thread {
 	if len(cands) == 0 {
 		return nil
 	}
-	if len(cands) == 1 {
-		return cands[0]
+	// sleep sets (partial-order reduction): a thread whose pending transition was already explored
+	// from an equivalent state and is independent of everything executed since stays asleep
+	avail := cands
+	if len(s.sleep) > 0 {
+		avail = nil
+		for _, t := range cands {
+			if !s.sleep[t.id] {
+				avail = append(avail, t)
+			}
+		}
+		if len(avail) == 0 {
+			panic(pathEnd{"sleepset", "redundant interleaving (all enabled threads asleep)"})
+		}
 	}
-	// preemption bound: switching away from an enabled current thread costs one
-	if self != nil && cands[0] == self && s.in.ex.cfg.PreemptBound >= 0 && s.preempt >= s.in.ex.cfg.PreemptBound {
-		return self
+	i := 0
+	if len(avail) > 1 {
+		// preemption bound: switching away from an enabled current thread costs one
+		if self != nil && avail[0] == self && s.in.ex.cfg.PreemptBound >= 0 && s.preempt >= s.in.ex.cfg.PreemptBound {
+			i = 0
+		} else {
+			i = s.in.chooseN(len(avail), 's')
+			if self != nil && avail[0] == self && i != 0 {
+				s.preempt++
+			}
+		}
 	}
-	i := s.in.chooseN(len(cands), 's')
-	if self != nil && cands[0] == self && i != 0 {
-		s.preempt++
+	chosen := avail[i]
+	if s.in.ex.cfg.NoSleepSets {
+		return chosen
 	}
-	return cands[i]
+	ns := map[int]bool{}
+	for id := range s.sleep {
+		if t := s.threads[id]; !t.done && t.pending != nil && independentOps(t.pending, chosen.pending) {
+			ns[id] = true
+		}
+	}
+	for _, t := range avail[:i] {
+		if independentOps(t.pending, chosen.pending) {
+			ns[t.id] = true
+		}
+	}
+	s.sleep = ns
+	return chosen
+}
+
+// independentOps: two pending transitions commute when they synchronise on different objects
+// (operations without an object - thread start, yield, quiescence - are dependent on everything).
+func independentOps(a, b *SyncOp) bool {
+	if a == nil || b == nil || a.wq || b.wq {
+		return false
+	}
+	if a.cases != nil || b.cases != nil {
+		if a.cases == nil || b.cases == nil {
+			return a.obj != nil && b.obj != nil || (a.cases != nil && b.obj != nil && !chanIn(a.cases, b.obj)) || (b.cases != nil && a.obj != nil && !chanIn(b.cases, a.obj))
+		}
+		for _, x := range a.cases {
+			for _, y := range b.cases {
+				if x.ch == y.ch {
+					return false
+				}
+			}
+		}
+		return len(a.cases) > 0 && len(b.cases) > 0
+	}
+	if a.obj == nil || b.obj == nil {
+		return false
+	}
+	return a.obj != b.obj
+}
+
+func chanIn(cs []chanCase, obj any) bool {
+	ch, ok := obj.(*Chan)
+	if !ok {
+		return false
+	}
+	for _, c := range cs {
+		if c.ch == ch {
+			return true
+		}
+	}
+	return false
 }
 
 // syncPoint parks the current thread at op until the scheduler selects it.
